@@ -81,7 +81,13 @@ CHECKS.update({
    text="Concurrent.tla models concurrent File.Apply calls on one parsed patch as processes advancing through the gate points of patch/gopatch.go (which points a call passes is a function of its source kind: both / first / second / no change matches, parse error, failing replacement) over a shared FileSet and an immutable program; TLC checks result-as-alone, non-interference, immutability and termination over every interleaving and prints each interleaving; every interleaving (quick: a seeded sample) is replayed on real goroutines through the gates, the recorded passages are validated action by action against the model (TraceConcurrent.tla), each call's bytes / error are compared with the same source applied alone and a deep hash of the compiled program is taken after every step. Sequential histories and free-running goroutines under the race detector go through the same trace spec. Command half: Indep.tla enumerates sequences of 2..3 files of 6 kinds x argument orders x 3 modes; each run is executed twice and TLC compares every file's outcome with its solo run.",
    technique="TLA+ interleaving model + TLC-enumerated schedules replayed through scheduler gates on real goroutines + trace validation; TLC-enumerated multi-file runs judged against solo runs"),
 })
-ENGINE_OF = {"C14": "tla-concurrent"}
+CHECKS.update({
+ "C17": dict(level="model_checking", ref="5/C17",
+   note="harness/cmtobs.go (go/parser, go/format) as the observer that attributes comments to declarations; pairing of input and output declarations by syntax hash (lib/prop_c17.py); rendering of the slot universe; TLC evaluating Comments.tla; go/printer's reaction to merged lines is not modelled",
+   text="Comments.tla defines (P) what must hold of the comments of gofmt(input) and output as attributed to top-level declarations by an independent observer - every declaration with unchanged syntax keeps exactly its doc / inner / trailing comments in order, header and package-clause comments are kept, no comment text becomes more frequent - and (I) the region arithmetic of astdiff.walkSlice with the comment clamping, for which TLC checks on every layout of up to 2 (thorough: 3) items with optional leading / trailing comments and gaps that replacing one item never deletes a comment associated with another. TLC draws files from a slot universe (declaration kind x doc style x inner comment x trailing comment x free-standing comment x touch kind, 16 headers; every (touched, untouched neighbour) pair in both orders and every header before a touched first declaration), which are rendered with unique comment texts, patched through the library API and the command with expression / statement-deleting / signature-changing / kind-changing / value-declaration changes (several per patch), and judged record by record by TLC; hand-written comment-heavy files x patches go through the same judgement.",
+   technique="TLA+ region model of astdiff (TLC, exhaustive layouts) + TLA+ predicates over observer output evaluated by TLC on TLC-drawn files (trace validation)"),
+})
+ENGINE_OF = {"C14": "tla-concurrent", "C17": "tla-comments"}
 
 NOT_YET = {
 }
@@ -136,6 +142,8 @@ def main():
              "serves_properties": ["C10", "C11"], "kind_free_text": "guard table and import-set relation (P) vs transcription of engine/import.go (I); scenarios replayed into patch.Parse/File.Apply and judged by TLC"},
             {"name": "tla-concurrent", "path": "spec/Concurrent.tla spec/EmitConcurrent.tla spec/TraceConcurrent.tla spec/Indep.tla spec/TraceIndep.tla harness/sched.go lib/prop_c14.py",
              "serves_properties": ["C14"], "kind_free_text": "interleaving model of concurrent Apply calls; schedules replayed through gate hooks on real goroutines; multi-file runs vs solo runs"},
+            {"name": "tla-comments", "path": "spec/Comments.tla spec/MCComments.tla spec/EmitComments.tla spec/TraceComments.tla harness/cmtobs.go lib/prop_c17.py corpus/comments/",
+             "serves_properties": ["C17"], "kind_free_text": "interval model of astdiff's changed regions; slot universe of commented declarations replayed and judged by TLC on observer output"},
             {"name": "tla-history", "path": "spec/History.tla spec/EmitHistory.tla spec/TraceHistory.tla lib/prop_c09.py",
              "serves_properties": ["C09"], "kind_free_text": "state machine of the apply loop over change sequences vs chain-of-runs semantics; seven delivery routes and hook events validated by TLC"},
             {"name": "tla-rewrite", "path": "spec/Pattern.tla spec/RewriteUniverse.tla spec/MCRewrite.tla spec/TraceRewrite.tla harness/",
